@@ -9,7 +9,7 @@ from vlib import Ctx, TRUSTED_BASE_COMMON, VERIF, finish, harness_build, harness
 ANCHORS = [("crates/turmoil/src/sim.rs", f) for f in ("step", "client", "host", "crash", "bounce")] + [
     ("crates/turmoil/src/builder.rs", "build"), ("crates/turmoil/src/rt.rs", "init"),
     ("crates/turmoil/src/world.rs", "register"), ("crates/turmoil/src/top.rs", "deliver_messages"),
-    ("crates/turmoil-fs/src/lib.rs", "dir_entries"), ("crates/turmoil-io-uring/src/sim.rs", "next_ready")]
+    ("crates/turmoil-fs/src/lib.rs", "dir_entries"), ("crates/turmoil-io-uring/src/sim.rs", "promote_ready")]
 
 
 class Spec(PropSpec):
